@@ -17,5 +17,12 @@ p = V + '/DESIGN.md'
 s = open(p).read()
 marker = "| seeded change | needs, to manifest | caught by | first violation reported |\n|---|---|---|---|\n"
 i = s.index(marker)
-open(p, 'w').write(s[:i] + marker + ''.join(rows))
+rest = s[i + len(marker):]
+# the table ends at the first line that is not a table row
+j = 0
+for line in rest.splitlines(True):
+    if not line.startswith('|'):
+        break
+    j += len(line)
+open(p, 'w').write(s[:i] + marker + ''.join(rows) + rest[j:])
 print(len(rows), "rows")
